@@ -4,6 +4,7 @@ import (
 	"fmt"
 	"go/ast"
 	"go/token"
+	"go/types"
 	"strings"
 
 	"golang.org/x/tools/go/ssa"
@@ -26,6 +27,9 @@ func init() {
 	mutant(&Mutant{Name: "c10-string-returns-partial", Property: "C10", File: "minify.go",
 		Old: "buffer.NewReader([]byte(v))); err != nil {\n\t\treturn v, err", New: "buffer.NewReader([]byte(v))); err != nil {\n\t\treturn string(out.Bytes()), err",
 		Rule: "R10.1", Construct: "M.String"})
+	mutant(&Mutant{Name: "c10-data-uri-guard-off-by-one", Property: "C10", File: "css/css.go",
+		Old: "if 4 < len(uri) && parse.EqualFold(uri[:5]", New: "if 3 < len(uri) && parse.EqualFold(uri[:5]",
+		Rule: "R10.3", Construct: "uri[:5]"})
 	mutant(&Mutant{Name: "c10-css-level-not-decremented", Property: "C10", File: "css/css.go",
 		Old: "\tc.tokensLevel--\n\treturn values\n}", New: "\treturn values\n}",
 		Rule: "R10.2", Construct: "minifyTokens"})
@@ -43,6 +47,184 @@ func init() {
 func runC10(c *Ctx) {
 	c.r101()
 	c.r102()
+	c.r103()
+}
+
+// lenLowerBound derives, from an outcome of a condition, a lower bound of len(<expr>) (by expression text).
+func lenLowerBound(info *types.Info, e ast.Expr, outcome bool) (string, int64, bool) {
+	b, ok := ast.Unparen(e).(*ast.BinaryExpr)
+	if !ok {
+		return "", 0, false
+	}
+	lenArg := func(x ast.Expr) (string, bool) {
+		call, ok := ast.Unparen(x).(*ast.CallExpr)
+		if !ok || str(call.Fun) != "len" || len(call.Args) != 1 {
+			return "", false
+		}
+		return nospace(str(call.Args[0])), true
+	}
+	op := b.Op
+	var v string
+	var k int64
+	if a, ok := lenArg(b.X); ok {
+		c, okc := intConst(info, b.Y)
+		if !okc {
+			return "", 0, false
+		}
+		v, k = a, c
+	} else if a, ok := lenArg(b.Y); ok {
+		c, okc := intConst(info, b.X)
+		if !okc {
+			return "", 0, false
+		}
+		v, k = a, c
+		// K op len  ==> len flip(op) K
+		switch op {
+		case token.LSS:
+			op = token.GTR
+		case token.LEQ:
+			op = token.GEQ
+		case token.GTR:
+			op = token.LSS
+		case token.GEQ:
+			op = token.LEQ
+		}
+	} else {
+		return "", 0, false
+	}
+	if !outcome {
+		switch op {
+		case token.LSS:
+			op = token.GEQ
+		case token.LEQ:
+			op = token.GTR
+		case token.GTR:
+			op = token.LEQ
+		case token.GEQ:
+			op = token.LSS
+		case token.EQL:
+			op = token.NEQ
+		case token.NEQ:
+			op = token.EQL
+		}
+	}
+	switch op {
+	case token.GTR:
+		return v, k + 1, true
+	case token.GEQ:
+		return v, k, true
+	case token.EQL:
+		return v, k, true
+	case token.NEQ:
+		if k == 0 {
+			return v, 1, true
+		}
+	}
+	return "", 0, false
+}
+
+// R10.3: where a length belief is stated, constant indexing must be consistent with it.
+func (c *Ctx) r103() {
+	const rule = "R10.3"
+	c.R.Rule(rule, "library packages: for every read v[k] / v[a:b] with constant index on a slice expression v that is dominated by outcomes of length tests on the same expression (K < len(v), len(v) == K, len(v) >= K, …, and their negations) with no assignment to v in between: the strongest lower bound L those tests establish must make the access safe (k < L, b ≤ L). A guard that is off by one (`4 < len(val)` followed by `val[5]`) is a stated belief contradicted by the code and panics on the boundary input. Accesses with no dominating length test are not judged (they rest on lexer invariants)")
+	n, judged := 0, 0
+	for _, rel := range libPkgs {
+		pk := c.P.Pkg(rel)
+		if pk == nil {
+			continue
+		}
+		info := pk.TypesInfo
+		for _, fd := range load.FuncDecls(pk) {
+			g := c.graph(pk, fd)
+			fname := pk.Name + "." + load.FuncName(fd)
+			for _, y := range g.Nodes {
+				a := y.Ast()
+				if a == nil || y.Kind == flow.KSelect {
+					continue
+				}
+				if y.Kind == flow.KRange {
+					a = y.Expr
+				}
+				type access struct {
+					v    string
+					need int64
+					at   ast.Node
+					what string
+				}
+				var accs []access
+				ast.Inspect(a, func(x ast.Node) bool {
+					if _, isLit := x.(*ast.FuncLit); isLit {
+						return false
+					}
+					switch e := x.(type) {
+					case *ast.IndexExpr:
+						if _, isSlice := info.TypeOf(e.X).Underlying().(*types.Slice); !isSlice {
+							if bt, isB := info.TypeOf(e.X).Underlying().(*types.Basic); !isB || bt.Kind() != types.String {
+								return true
+							}
+						}
+						if k, ok := intConst(info, e.Index); ok && k >= 0 {
+							accs = append(accs, access{nospace(str(e.X)), k + 1, e, str(e)})
+						}
+					case *ast.SliceExpr:
+						if _, isSlice := info.TypeOf(e.X).Underlying().(*types.Slice); !isSlice {
+							return true
+						}
+						var need int64 = -1
+						for _, bnd := range []ast.Expr{e.Low, e.High} {
+							if bnd != nil {
+								if k, ok := intConst(info, bnd); ok && k > need {
+									need = k
+								}
+							}
+						}
+						if need > 0 {
+							accs = append(accs, access{nospace(str(e.X)), need, e, str(e)})
+						}
+					}
+					return true
+				})
+				if len(accs) == 0 {
+					continue
+				}
+				facts := g.DomFacts(y)
+				for _, ac := range accs {
+					n++
+					var best int64 = -1
+					var bestTest *flow.Node
+					for _, f := range facts {
+						if f.Test.Kind != flow.KCond {
+							continue
+						}
+						if v, lb, ok := lenLowerBound(info, f.Test.Expr, f.Value); ok && v == ac.v && lb > best {
+							// no reassignment of v between the test and the access
+							reassigned := false
+							for _, z := range g.Nodes {
+								if _, isAs := assignsTo(z, func(l ast.Expr) bool { return nospace(str(l)) == ac.v || strings.HasPrefix(ac.v, nospace(str(l))+".") }); isAs && z != y {
+									if g.Dominates(f.Test, z) && g.Path(flow.Search{From: []*flow.Node{z}, Goal: func(q *flow.Node) bool { return q == y }, Avoid: func(q *flow.Node) bool { return q == f.Test }}) != nil {
+										reassigned = true // (a path that re-passes the test re-establishes the bound)
+									}
+								}
+							}
+							if !reassigned {
+								best, bestTest = lb, f.Test
+							}
+						}
+					}
+					if bestTest == nil {
+						continue // no stated belief
+					}
+					// an access inside the condition itself that established a bound is ordered by short-circuit: fine (dominance covers it)
+					judged++
+					construct := fmt.Sprintf("%s/%s under %s", fname, ac.what, nospace(str(bestTest.Expr)))
+					c.R.Check(ac.need <= best, rule, construct, c.pos(ac.at), fmt.Sprintf("needs len ≥ %d, guards give len ≥ %d", ac.need, best),
+						fmt.Sprintf("%s needs len(%s) ≥ %d but the dominating length tests only establish len ≥ %d (strongest: %s): on an input of exactly that length the access is out of range and the minifier panics", ac.what, ac.v, ac.need, best, str(bestTest.Expr)))
+				}
+			}
+		}
+	}
+	c.R.Note("R10.3: %d constant-index accesses seen, %d dominated by a length test and judged", n, judged)
+	c.R.Floor(rule, "constant-index accesses under a length guard", judged, 40)
 }
 
 func (c *Ctx) r101() {
